@@ -161,7 +161,7 @@ def buckets_before(ctx, c, rewrite):
 
 
 def run(ctx):
-    lw = setup(ctx)
+    lw = setup(ctx, warm=False)
     install_rewrite_monitors(circmon.Circuit)
     rng = ctx.rng
     while not ctx.out_of_time():
